@@ -248,6 +248,7 @@ class Fn2(c2lean.Fn):
         self.rmw = []              # write buffers that are also read: extra `buf0` parameter
         self.given = []            # struct out-params tested with `if (meta)`
         self.struct_outs = {}      # struct pointer name -> [field,…] in order of first appearance
+        self.local_arrays = []     # "@arr:<name>" keys of local arrays
         self.reclassify_passed_outs()
         self.uses_fuel = self.has_real_loop(self.body) or self.calls_fuel(self.body)
         self.scan_struct_outs()
@@ -376,7 +377,9 @@ class Fn2(c2lean.Fn):
         if isinstance(buf, str) and buf.startswith("@bytes:"):
             loc = env.vars[buf[7:]]
             return V(f"(({loc.s} / 2 ^ (8 * {paren(str(pos))})) % 256)", Ty("u", 8))
-        if buf in self.write_bufs:
+        if isinstance(buf, str) and buf.startswith("@arr:"):
+            rd = f"(rdw (fun _ => 0) {self.wexpr(env, buf)} {paren(str(pos))})"
+        elif buf in self.write_bufs:
             if buf not in self.rmw:
                 self.rmw.append(buf)
             rd = f"(rdw {buf}0 {self.wexpr(env, buf)} {paren(str(pos))})"
@@ -774,6 +777,17 @@ class Fn2(c2lean.Fn):
                     env.vars[d["name"]] = self.bind_ptr(env, d["name"], ty, v.ptr)
                     out += self.flush_lets(env)
                     continue
+                marr = re.fullmatch(r"(.+?)\s*\[(\d+)\]", d["type"].get("qualType", ""))
+                if ty.kind not in "ui" and marr and parse_qual(marr.group(1)) is not None and \
+                        parse_qual(marr.group(1)).kind in "ui" and not init:
+                    # a local array: a private buffer with its own store list (reads of elements never stored are 0:
+                    # reading them would be an uninitialised read in the C)
+                    key = "@arr:" + d["name"]
+                    env.vars[d["name"]] = V("", Ty("ptr", 64, parse_qual(marr.group(1))), ptr=(key, 0))
+                    env.writes[key] = W()
+                    if key not in self.local_arrays:
+                        self.local_arrays.append(key)
+                    continue
                 if ty.kind not in "ui":
                     raise Unsupported(f"local of type {d['type']['qualType']}")
                 if init:
@@ -1007,9 +1021,9 @@ class Fn2(c2lean.Fn):
                 new = env.fresh(buf)
                 env.outs[buf] = new
                 return pre + f"let {new} := {v.s}\n"
-            if buf not in self.write_bufs:
+            if buf not in self.write_bufs and not (isinstance(buf, str) and buf.startswith("@arr:")):
                 raise Unsupported(f"store into {buf}, which is not a write buffer")
-            new = env.fresh(f"{buf}_b")
+            new = env.fresh(f"{buf.replace('@arr:', '')}_b")
             w = env.writes.setdefault(buf, W())
             w.items.append((pos, new))
             return pre + f"let {new} : Nat := {v.s}\n"
@@ -1037,9 +1051,9 @@ class Fn2(c2lean.Fn):
             new = env.fresh(name, lty(cur.ty))
             env.vars[name] = V(new, cur.ty)
             return f"let {new} : Nat := setByte {cur.s} {paren(str(pos))} {paren(v.s)}\n"
-        if buf not in self.write_bufs:
+        if buf not in self.write_bufs and not (isinstance(buf, str) and buf.startswith("@arr:")):
             raise Unsupported(f"store into {buf}, which is not a write buffer")
-        new = env.fresh(f"{buf}_b")
+        new = env.fresh(f"{buf.replace('@arr:', '')}_b")
         w = env.writes.setdefault(buf, W())
         w.items.append((pos, new))
         return f"let {new} : Nat := {v.s}\n"
@@ -1147,7 +1161,7 @@ class Fn2(c2lean.Fn):
         for key in self.out_keys():
             if any(e.outs.get(key) != env.outs.get(key) for e in envs):
                 changed.append(("out", key))
-        for buf in self.write_bufs:
+        for buf in self.write_bufs + self.local_arrays:
             if any(e.writes.get(buf, W()).expr() != env.writes.get(buf, W()).expr() for e in envs):
                 changed.append(("w", buf))
         if not changed:
@@ -1173,7 +1187,7 @@ class Fn2(c2lean.Fn):
             elif kind == "out":
                 names.append(env.fresh(key.replace(".", "_") + "_opt", "Option Nat"))
             else:
-                names.append(env.fresh(key + "_w", LW))
+                names.append(env.fresh(key.replace("@arr:", "") + "_w", LW))
         tup = lambda e: ("(" + ", ".join(val(e, k_, key) for k_, key in changed) + ")") if len(changed) > 1 \
             else val(e, changed[0][0], changed[0][1])  # noqa: E731
         pat = "(" + ", ".join(names) + ")" if len(names) > 1 else names[0]
@@ -1273,7 +1287,10 @@ class Fn2(c2lean.Fn):
                 for nm in declared_names(init):
                     saved[nm] = env.vars.get(nm)
                 env.pending, env.prelets = [], []
-                pre = self.simple(init, env) if init["kind"] != "CompoundStmt" else self.simple_or_join(init, env)
+                if init["kind"] == "BinaryOperator" and init.get("opcode") == ",":
+                    pre = self.comma(init, env)
+                else:
+                    pre = self.simple(init, env) if init["kind"] != "CompoundStmt" else self.simple_or_join(init, env)
                 if env.pending:
                     raise Unsupported("fuel-taking call in a for-initialiser")
         elif k == "WhileStmt":
@@ -1308,7 +1325,7 @@ class Fn2(c2lean.Fn):
                     inits.append(o.s)
                     types.append("Int" if o.ty.kind == "i" else "Nat")
             elif kind == "w":
-                nm = lenv.fresh(key + "_w", LW)
+                nm = lenv.fresh(key.replace("@arr:", "") + "_w", LW)
                 lenv.writes[key] = W(nm)
                 inits.append(env.writes.get(key, W()).expr())
                 types.append("List (Nat × Nat)")
@@ -1400,7 +1417,7 @@ class Fn2(c2lean.Fn):
                     nm = env.fresh(key, lty(o.ty))
                     env.vars[key] = V(nm, o.ty)
             elif kind == "w":
-                nm = env.fresh(key + "_w", LW)
+                nm = env.fresh(key.replace("@arr:", "") + "_w", LW)
                 env.writes[key] = W(nm)
             else:
                 nm = env.fresh(key.replace(".", "_") + "_opt", "Option Nat")
@@ -1474,7 +1491,7 @@ class Fn2(c2lean.Fn):
         bufs = []
         # conservative: a store anywhere in the loop may hit any write buffer / out param reachable by pointers
         if ws:
-            for b in self.write_bufs:
+            for b in self.write_bufs + self.local_arrays:
                 bufs.append(b)
             for o in self.out_params:
                 if o not in os_:
